@@ -30,7 +30,7 @@ def main():
             continue
         meta = module_meta(os.path.join(HERE, "checks", fn))
         pid = meta["PROPERTY"]
-        if meta.get("REGISTER", True) is False:
+        if meta.get("READY", False) is not True:
             continue
         claimed.add(pid)
         checks.append(
